@@ -251,6 +251,7 @@ mpz_bdiv_bin_uiui (mpz_ptr r, mpir_ui n, mpir_ui k)
   mp_size_t maxn;
   TMP_DECL;
 
+  VERIF_EV ("bin.bdiv", n > 2000000000UL ? 2000000000UL : n, k > 2000000000UL ? 2000000000UL : k, 0, 0);
   ASSERT (k > ODD_FACTORIAL_TABLE_LIMIT);
   TMP_MARK;
 
@@ -366,6 +367,7 @@ mpz_smallk_bin_uiui (mpz_ptr r, mpir_ui n, mpir_ui k)
   mp_limb_t i, iii, cy;
   mp_bitcnt_t i2cnt, cnt;
 
+  VERIF_EV ("bin.smallk", n > 2000000000UL ? 2000000000UL : n, k > 2000000000UL ? 2000000000UL : k, 0, 0);
   count_leading_zeros (cnt, (mp_limb_t) n);
   cnt = GMP_LIMB_BITS - cnt;
   alloc = cnt * k / GMP_NUMB_BITS + 3;	/* FIXME: ensure rounding is enough. */
@@ -449,6 +451,7 @@ mpz_smallkdc_bin_uiui (mpz_ptr r, mpir_ui n, mpir_ui k)
   mp_size_t rn;
   mpir_ui hk;
 
+  VERIF_EV ("bin.smallkdc", n > 2000000000UL ? 2000000000UL : n, k > 2000000000UL ? 2000000000UL : k, 0, 0);
   hk = k >> 1;
 
   if ((! BIN_UIUI_RECURSIVE_SMALLDC) || hk <= ODD_FACTORIAL_TABLE_LIMIT)
@@ -622,6 +625,7 @@ mpz_goetgheluck_bin_uiui (mpz_ptr r, unsigned long int n, unsigned long int k)
   mp_limb_t prod, max_prod, j;
   TMP_DECL;
 
+  VERIF_EV ("bin.goetgheluck", n > 2000000000UL ? 2000000000UL : n, k > 2000000000UL ? 2000000000UL : k, 0, 0);
   ASSERT (BIN_GOETGHELUCK_THRESHOLD >= 13);
   ASSERT (n >= 25);
 
